@@ -18,39 +18,50 @@ from . import c12_tx
 
 PROPS_MODULE = "NessaiVerif.Props.C12"
 MANIFEST = dict(
-    text="(a) Tables regenerated from the nessai sources on every run (python ast -> Gen/Accounts.lean): for every class of the "
+    text="PARTIAL: the property's clauses 'the restored sampler has the SAME VALUES as the one that wrote the checkpoint' and 'a run "
+         "killed and resumed any number of times completes with a valid result' are established by the harness only (real round "
+         "trips and kill/resume chains); what is proved is (a) table facts about the current sources and (b) the accounting model. "
+         "(a) Tables regenerated from the nessai sources on every run (python ast -> Gen/Accounts.lean): for every class of the "
          "pickling chain (samplers, OrderedSamples, proposals, flow models, evidence states) the __getstate__ exclusion sets, "
-         "explicit overrides and tuple parts, __setstate__, the attribute universe, and the attribute assignments / calls / "
-         "`+=` updates of the resume path. Lean theorems decided over these tables: every attribute in the property's list "
-         "(iteration, live and discarded points, evidence state, insertion indices, history, pool, training counters, "
-         "reparameterisation state, sample counts, proposal weights, density tables, flows, model) is either carried by the pickle "
-         "or assigned again by the resume path; everything any __getstate__ drops is re-derived; tuple parts are re-attached in "
-         "order; no class outside the chain customises pickling; the likelihood counters cross the pickle as `_previous_*` and are "
-         "ADDED to the fresh model; both sampling loops re-arm sampling_start_time; no local of a resume-path function can be unbound. (b) Lean theorems, by induction over EVERY "
-         "history of launch/run/checkpoint/kill/down-time, about a model of the counters as the code keeps them (counter restarts at "
-         "0 in a fresh process and is re-seeded with += from the pickle; sampling_time += now - start at each checkpoint): "
-         "evaluations, likelihood time and sampling time equal the sums over the retained steps of a commit log (never double "
-         "counted: sub-list of the performed steps; never reset: all of them without a kill), resume is idempotent on the accounts; "
-         "with counter-examples for a reused model object and for a loop that does not re-arm the start. "
+         "explicit overrides and tuple parts, __setstate__, the attribute universe, and the attribute assignments / calls / `+=` "
+         "updates of the resume path (incl. the pre-loop update_state). Lean theorems decided over these tables: every attribute in "
+         "the property's list (iteration, live and discarded points, evidence state, insertion indices, history, pool, training "
+         "counters, reparameterisation state, sample counts, proposal weights, density tables, flows, model) exists and is either "
+         "dropped by __getstate__ AND assigned again by the resume path (any assignment counts; values are checked by the tie), or "
+         "carried by the pickle AND not assigned by the resume path except for an explicit, exactness-checked list of 12 "
+         "overwritten attributes; everything any __getstate__ drops is re-assigned; tuple parts are re-attached in order; no class "
+         "outside the chain customises pickling; the likelihood counters cross the pickle as `_previous_*` and are ADDED to the "
+         "fresh model; both sampling loops re-arm sampling_start_time while the resume itself does not; no local of a resume-path "
+         "function can be unbound; the C01/C13/C02 run state is pickled and untouched (table fact) and therefore returned unchanged "
+         "by resume∘checkpoint UNDER THE ASSUMPTION that pickle is faithful (state modelled as an attribute->value list; the "
+         "assumption is observed by the round-trip tie, not proved). (b) Lean theorems, by induction over EVERY history of "
+         "resume / loop entry / run / checkpoint / kill / down-time, about a model of the counters as the code keeps them (counter "
+         "restarts at 0 in a fresh process and is re-seeded with += from the pickle; sampling_time += now - start at each "
+         "checkpoint; the pickle carries the OLD start; the start is re-armed at the loop entry, not at the resume): evaluations "
+         "and likelihood time equal the sums over the retained steps of a commit log (never double counted: sub-list of the "
+         "performed steps; never reset: all of them without a kill); sampling time equals the retained in-loop ticks PROVIDED every "
+         "checkpoint is written inside the loop; resume is idempotent on the accounts; with proved counter-examples for a reused "
+         "model object, a loop that does not re-arm the start, and a checkpoint between the resume and the loop entry (signal "
+         "handler: adds the last segment again plus the down-time — known finding, reproduced on the real code). "
          "Tie: the tables are compared with the real __getstate__ output of live objects; field-by-field digests of the writing "
          "sampler at every checkpoint of real runs (standard sampler with neural flows; importance sampler with exactly-known and "
          "with neural flows, with/without saved density tables; iteration-, time- and training-triggered checkpoints) against the "
          "sampler obtained through FlowSampler(resume=True / resume_data=) with a fresh model; kill/resume chains under a logical "
-         "clock (kills raised inside chosen likelihood calls) whose every checkpoint, launch and final result is compared exactly "
-         "with the Lean model and with an independent commit-log oracle; every consume_sample of every launch of the standard chains "
-         "(recorded with harness.c01's wrappers across kills and resumes) is replayed through the C01 Lean model, whose live set must "
-         "chain from step to step and equal the restored live set at every resume point (resume is the identity on the C01 state: "
-         "checked, and proved for the pickled attributes in run_state_survives_checkpoint_resume); the importance-sampler stores are "
-         "checked after every resume and at the end against the C04 predicates (sorted, index sets partition the store, rows attached, "
-         "store = the checkpointed one) and the C03 bookkeeping (harness.c03.oracle_snapshot); thousands of random histories through the "
-         "real BaseNestedSampler.checkpoint/__getstate__/resume_from_pickled_sampler code against the Lean model.",
-    note="Pickle/torch.save fidelity is observed, not proved. The logical clock ticks once per likelihood call inside the sampling "
-         "loop (wall-clock is never compared). Optimiser state, cached latent-prior samplers and batch size are not in the property's "
-         "list and are not restored by nessai (recorded in the evidence). The active-proposal pointer is compared as 'the proposal the "
-         "next draw comes from'. The C05 result-consistency model is not replayed on the chains (their final results are checked "
-         "against the run invariants directly). Known findings: repeated history entry after a standard resume, checkpoint_on_training checkpoints written "
-         "mid-iteration. (Fixed in /repo and now required by the oracle: importance-sampler sampling_time after a resume, "
-         "FlowProposal.resume with a NumPy mask / AugmentedFlowProposal.)",
+         "clock (kills raised inside chosen likelihood calls, optional handler checkpoint before the loop entry) whose every "
+         "checkpoint, launch and final result is compared exactly with the Lean model and with an independent commit-log oracle; "
+         "every consume_sample of every launch of the standard chains (recorded with harness.c01's wrappers across kills and "
+         "resumes) is replayed through the C01 Lean model, whose live set must chain from step to step and equal the restored live "
+         "set at every resume point; the importance-sampler stores are checked after every resume and at the end against the C04 "
+         "predicates and the C03 bookkeeping; thousands of random histories through the real BaseNestedSampler.checkpoint / "
+         "__getstate__ / resume_from_pickled_sampler code against the Lean model.",
+    note="Pickle/torch.save fidelity is observed, not proved. The logical clock ticks once per likelihood call, once per iteration and "
+         "three times per training inside the sampling loop (wall-clock is never compared). Optimiser state, cached latent-prior "
+         "samplers and batch size are not in the property's list and are not restored by nessai (recorded in the evidence). The "
+         "active-proposal pointer is compared as 'the proposal the next draw comes from'. In-place mutations by callees of the resume "
+         "path are not table sites. The C05 result-consistency model is not replayed on the chains. Known findings: repeated history "
+         "entry after a standard resume, checkpoint_on_training checkpoints written mid-iteration, handler checkpoint between resume "
+         "and loop entry counts the down-time. (Fixed in /repo and required by the oracle: importance-sampler sampling_time after a "
+         "resume, FlowProposal.resume with a NumPy mask / AugmentedFlowProposal.)",
     technique="Lean 4 proof (decide over source-generated tables; induction over histories) + ast translator + real checkpoint/resume round trips and kill chains",
     ref="5/C12")
 
@@ -67,6 +78,7 @@ class Kill(BaseException):
 class _Clock:
     t = 0
     tick = False
+    on_enter = None      # called when nested_sampling_loop is entered
 
 
 CLOCK = _Clock()
@@ -109,6 +121,8 @@ class LogicalTime:
             orig = cls.nested_sampling_loop
 
             def loop(self_, *a, **k):
+                if CLOCK.on_enter is not None:
+                    CLOCK.on_enter()
                 CLOCK.tick = True
                 try:
                     return orig(self_, *a, **k)
@@ -129,13 +143,13 @@ class LogicalTime:
                          ticking(NestedSampler, "train_proposal", 3)]
         for p in self.patches:
             p.start()
-        CLOCK.t, CLOCK.tick = 0, False
+        CLOCK.t, CLOCK.tick, CLOCK.on_enter = 0, False, None
         return self
 
     def __exit__(self, *a):
         for p in self.patches:
             p.stop()
-        CLOCK.tick = False
+        CLOCK.tick, CLOCK.on_enter = False, None
 
 
 class Recorder:
@@ -162,6 +176,11 @@ class Recorder:
         self.ops.append("L")
         self.calls, self.kill_at, self.count = 0, kill_at, False
         self.last_clock = CLOCK.t
+        CLOCK.on_enter = self.enter_loop
+
+    def enter_loop(self):
+        self.flush()
+        self.ops.append("E")
 
     def on_call(self):
         if not self.count:
@@ -540,7 +559,8 @@ STD_CONFIGS = [
 
 
 def std_kwargs(cfg, seed):
-    kw = dict(STD_BASE)
+    import copy
+    kw = copy.deepcopy(STD_BASE)          # nessai writes into the flow_config dictionary it is given
     kw.update({k: v for k, v in cfg.items() if k not in ("name", "vectorised")})
     kw["seed"] = seed
     return kw
@@ -745,28 +765,52 @@ def classify(kind, ns):
 # (2) kill / resume chains under the logical clock
 # ----------------------------------------------------------------------------------------------------
 def py_commit_log(ops):
-    """independent oracle: the property's accounting, written as a commit log (no counter is ever reset or re-seeded)"""
-    alive, committed, pending = False, [0, 0, 0], [0, 0, 0]
+    """independent oracle: the property's accounting, written as a commit log (no counter is ever reset or re-seeded);
+    sampling time = ticks spent inside the sampling loop"""
+    alive, in_loop, committed, pending = False, False, [0, 0, 0], [0, 0, 0]
     out = []
     for op in ops:
         p = op.split(":")
         if p[0] == "L":
-            alive, pending = True, [0, 0, 0]
+            alive, in_loop, pending = True, False, [0, 0, 0]
+        elif p[0] == "E" and alive:
+            in_loop = True
         elif p[0] == "R" and alive:
-            pending = [pending[0] + int(p[1]), pending[1] + int(p[2]), pending[2] + int(p[3])]
+            pending = [pending[0] + int(p[1]), pending[1] + (int(p[2]) if in_loop else 0), pending[2] + int(p[3])]
         elif p[0] == "C" and alive:
             committed = [committed[i] + pending[i] for i in range(3)]
             pending = [0, 0, 0]
         elif p[0] == "K":
-            alive = False
+            alive = in_loop = False
         out.append(dict(evals=committed[0] + pending[0], ticks=committed[1] + pending[1], ltime=committed[2] + pending[2],
                         c_evals=committed[0], c_ticks=committed[1], c_ltime=committed[2]))
     return out
 
 
-def chain(ctx, kind, cfg, seed, kills, downs):
+def ckpt_in_loop(ops):
+    """is every checkpoint of the history written from inside the sampling loop?"""
+    alive = in_loop = False
+    for op in ops:
+        k = op[0]
+        if k == "L":
+            alive, in_loop = True, False
+        elif k == "E" and alive:
+            in_loop = True
+        elif k == "K":
+            alive = in_loop = False
+        elif k == "C" and alive and not in_loop:
+            return False
+    return True
+
+
+HANDLER_KEY = "BaseNestedSampler.checkpoint:between-resume-and-loop-entry:down-time-counted"
+
+
+def chain(ctx, kind, cfg, seed, kills, downs, handler_ckpt=False):
+    """handler_ckpt: after every resume, before the loop is entered, call `ns.checkpoint()` as the signal handler
+    (FlowSampler.safe_exit -> terminate_run) does"""
     import torch
-    case = {"kind": f"chain-{kind}", "cfg": cfg, "seed": seed, "kills": kills, "downs": downs}
+    case = {"kind": f"chain-{kind}", "cfg": cfg, "seed": seed, "kills": kills, "downs": downs, "handler_ckpt": handler_ckpt}
     sampler_cls = "NestedSampler" if kind == "std" else "ImportanceNestedSampler"
     tmp = tempfile.mkdtemp(prefix="c12ch_")
     rec = Recorder()
@@ -793,6 +837,8 @@ def chain(ctx, kind, cfg, seed, kills, downs):
         model = instrument(base_model(kind, cfg, seed), rec)
         fs = build_sampler(kind, cfg, seed, model, tmp, resume=True, time_trigger=time_trigger)
         rec.observe("launch", fs.ns)
+        if handler_ckpt and fs.ns.iteration > 0:
+            fs.ns.checkpoint()          # what FlowSampler.terminate_run does on SIGTERM/SIGINT/SIGALRM
         if kind == "ins" and written and fs.ns.iteration > 0:
             ins_structure(ctx, fs.ns, {**case, "attempt": attempt}, "resumed", base_model(kind, cfg, seed), written)
         rec.count = True
@@ -981,7 +1027,9 @@ def ins_structure(ctx, ns, case, tag, plain_model, written, final=False):
 def check_chain(ctx, kind, sampler_cls, rec, ns, case, kills_hit):
     ops = rec.ops
     resets = ctx.model([f"acc resets {sampler_cls}"])[0]
-    line = f"acc run {resets if resets in ('0', '1') else '1'} 1 " + ";".join(ops)
+    rearm = ctx.model(["acc rearm"])[0]
+    line = f"acc run {resets if resets in ('0', '1') else '1'} {rearm if rearm in ('0', '1') else '0'} 1 " + ";".join(ops)
+    in_loop_only = ckpt_in_loop(ops)
     out = ctx.model([line])[0]
     case = {**case, "ops": ops if len(ops) < 80 else ops[:40] + ["..."] + ops[-30:]}
     if out == "bad-op":
@@ -998,6 +1046,8 @@ def check_chain(ctx, kind, sampler_cls, rec, ns, case, kills_hit):
         m, sp = states[idx], spec[idx]
         where = {**case, "at": what, "op_index": idx, "iteration": real["iteration"]}
         # model == implementation (the model follows the code: resetStart is read from the generated table)
+        if what == "launch" and not in_loop_only and real["iteration"] > 0:
+            continue        # taken before the handler checkpoint of that launch; the checkpoint itself is observed next
         if (real["evals"], real["ltime"], real["stime"]) != (m["evals"], m["ltime"], m["stime"]):
             ctx.disagree("accounts of the real sampler differ from the Lean model on the recorded history",
                          {**where, "real": real, "model": {k: m[k] for k in ("evals", "ltime", "stime")}})
@@ -1012,7 +1062,7 @@ def check_chain(ctx, kind, sampler_cls, rec, ns, case, kills_hit):
                             {**where, "real": real, "required": sp})
         want_t = sp["ticks"] if what != "launch" else sp["c_ticks"]
         if real["stime"] != want_t:
-            ctx.oracle_fail(f"{sampler_cls}.resume:sampling_time-not-cumulative",
+            ctx.oracle_fail(f"{sampler_cls}.resume:sampling_time-not-cumulative" if in_loop_only else HANDLER_KEY,
                             f"sampling_time = {real['stime']} ticks at {what} (iteration {real['iteration']}), the retained sampling "
                             f"ticks are {want_t}: the time before the resumed checkpoint and/or the down-time is counted again",
                             {**where, "real": real, "required": sp})
@@ -1225,21 +1275,23 @@ def micro_histories(ctx, n):
     import json
     tmp = tempfile.mkdtemp(prefix="c12mi_")
     lines, impls, cases = [], [], []
+    rearm = ctx.model(["acc rearm"])[0]       # does the resume itself re-arm the start (generated from the sources)?
+    rearm = rearm if rearm in ("0", "1") else "0"
     try:
         corpus = core.VERIF / "corpus" / "C12" / "histories.json"
         hist = json.loads(corpus.read_text())["histories"] if corpus.exists() else []
         for h in hist:
-            out = ctx.model([f"acc run {h['reset']} {h['fresh']} " + ";".join(h["ops"])])[0]
+            out = ctx.model([f"acc run {h['reset']} {h.get('rearm', 0)} {h['fresh']} " + ";".join(h["ops"])])[0]
             last = out.split("|")[-1].split(",")
             got = dict(evals=int(last[1]), ltime=int(last[2]), stime=int(last[3]), current=int(last[4]))
             if got != h["expect"]:
                 ctx.disagree("corpus history: driver output differs from the recorded expectation", {"kind": "micro-history", **h, "got": got})
             ctx.case(("corpus", tuple(h["ops"]), h["reset"], h["fresh"]), True, kind="corpus-history")
         with LogicalTime():
-            todo = [h["ops"] for h in hist if h["reset"] == 0 and h["fresh"] == 1] + [gen_micro_ops(ctx.rng) for _ in range(n)]
+            todo = [h["ops"] for h in hist if h["reset"] == 0 and h["fresh"] == 1 and str(h.get("rearm", 0)) == rearm and "E" not in h["ops"]] + [gen_micro_ops(ctx.rng) for _ in range(n)]
             for k, ops in enumerate(todo):
                 obs = exec_micro(ops, tmp)
-                lines.append("acc run 0 1 " + ";".join(ops))
+                lines.append(f"acc run 0 {rearm} 1 " + ";".join(ops))
                 impls.append(obs)
                 cases.append({"kind": "micro-history", "ops": ops})
                 ctx.case(("micro", tuple(ops)), "C" in ops and ops.count("L") > 1, {"kind": "micro-history", "ops": ops} if k < 2 else None,
@@ -1274,7 +1326,8 @@ def mask_case(ctx, mask_kind="ndarray"):
     case = {"kind": "mask", "mask": mask_kind}
     tmp = tempfile.mkdtemp(prefix="c12mk_")
     try:
-        kw = dict(STD_BASE)
+        import copy
+        kw = copy.deepcopy(STD_BASE)
         kw.update(checkpoint_on_iteration=True, checkpoint_interval=5, maximum_uninformed=10, training_frequency=40, cooldown=20,
                   max_iteration=25, seed=5)
         if mask_kind == "augmented":
@@ -1388,6 +1441,14 @@ def correspond(ctx):
                     c["name"] += ":time"
                 kills, downs = gen_kills(ctx, "ins", c, 1 + (ci + s) % nk)
                 chain(ctx, "ins", c, base + 300 + 5 * ci + s, kills, downs)
+        # ---- a signal-handler checkpoint between the resume and the loop entry (standard sampler; the importance
+        #      sampler refuses non-periodic checkpoints)
+        for k in range(ctx.scale(1, 4)):
+            cfg = STD_CONFIGS[(2 + k) % len(STD_CONFIGS)]
+            total = calls_seen(ctx).get(("std", cfg["name"]), 600)
+            # the first kill lands well inside the run, after several checkpoints
+            kills = [int(total * ctx.rng.uniform(0.35, 0.75))] + gen_kills(ctx, "std", cfg, k % 3)[0]
+            chain(ctx, "std", cfg, base + 400 + k, kills, [ctx.rng.choice([7, 60, 1000]) for _ in kills], handler_ckpt=True)
         # ---- FlowProposal.resume with a mask that is not a list
         mask_case(ctx, "ndarray")
         mask_case(ctx, "list")
@@ -1432,7 +1493,7 @@ def replay(ctx, obj):
         if kind.startswith("roundtrip-"):
             roundtrip_run(ctx, kind.split("-")[1], c["cfg"], c["seed"])
         elif kind.startswith("chain-"):
-            chain(ctx, kind.split("-")[1], c["cfg"], c["seed"], c["kills"], c["downs"])
+            chain(ctx, kind.split("-")[1], c["cfg"], c["seed"], c["kills"], c["downs"], handler_ckpt=c.get("handler_ckpt", False))
         elif kind == "mask":
             mask_case(ctx, c.get("mask", "ndarray"))
         elif kind == "micro-history":
@@ -1440,7 +1501,7 @@ def replay(ctx, obj):
             try:
                 with LogicalTime():
                     obs = exec_micro(c["ops"], tmp)
-                out = ctx.model(["acc run 0 1 " + ";".join(c["ops"])])[0].split("|")
+                out = ctx.model([f"acc run 0 {ctx.model(['acc rearm'])[0]} 1 " + ";".join(c["ops"])])[0].split("|")
                 spec = py_commit_log(c["ops"])
                 for idx, e, lt, stime, cur in obs:
                     m = out[idx].split(",")
